@@ -427,8 +427,10 @@ def stragglers(before, wait=10.0):
     """executor worker threads started since `before` (a set of threads) that are still alive now; they are joined (up to `wait`
     seconds each) before returning, so that the caller can go on to close the datasets they may be using"""
     late = [t for t in threading.enumerate() if t not in before and t.is_alive() and t.name.startswith('ThreadPoolExecutor')]
+    import time
+    deadline = time.time() + wait
     for t in late:
-        t.join(wait)
+        t.join(max(0.0, deadline - time.time()))
     return late
 
 
